@@ -1,54 +1,538 @@
 """C11 -- the out-of-line ABI module is equivalent to the in-line FFI.
 
 Differential (second cffi path): the same generated cdef is given to an
-in-line FFI and emitted with emit_python_code(), imported, and both are
-compared item by item; functions and globals through dlopen() of a gcc-built
-library that defines them.  The decoding path runs on the ASan/UBSan backend.
+in-line FFI and emitted with emit_python_code() / compile(), imported, and
+both are compared item by item; functions and globals through dlopen() of a
+gcc-built library that defines them.  The decoding path runs on the
+ASan/UBSan backend.
+
+On top of the shared declaration generator (vlib/gen_cdef.py) this check adds
+its own declaration forms (class Extras) and seed-level modes (modes()):
+wide / anonymous / typedef'd enums, anonymous typedef'd structs, named
+pointers to anonymous structs, tagged typedef'd aggregates, empty and opaque
+aggregates, self- and mutually-referential structs, large array lengths,
+qualifiers, variadic functions, functions returning / taking function
+pointers and structs by value, globals of open-array / function-pointer /
+pointer / struct-array / long double type with non-zero initial values,
+negative #defines, constants without a value (readable only out-of-line),
+cdef(packed=True / pack=N), ffi.include() of a base module, the compile()
+entry point, more than 255 type-table slots, shuffled access order.
+
+cdefs with self-/mutually-referential or opaque aggregates are compared one
+per process on the plain (gcc, assert-enabled) backend (finalize()): their
+out-of-line realization can trip assertions of the backend, which must not
+take the other cdefs of a case with it.  Mechanisms that classify defects
+reproduced while writing this check (each computed from what was observed):
+  abort:assert:<function>           an assertion of the backend failed
+  ool-eager-completion:...          out-of-line typeof() of a struct raises
+                                    'has incomplete type', in-line it works
+  include-anonymous-name-collision  included and including cdef both have
+                                    anonymous aggregates ('$1' twice); with
+                                    ':fatal-lost-struct' when it ends in
+                                    Py_FatalError("lost a struct/union!")
+  aggregate-identity-split:enum-of-included-ffi
 """
 import os, sys, random
 from vlib import core, cc, gen_cdef as GC
 
 RULE = ("case = one generated cdef (about 14 declarations: typedef chains, nested/anonymous "
         "aggregates with bitfields, enums, #define/static const constants, functions, globals, "
-        "optionally FILE*) ; compared: every typedef/struct/union/enum (identity for "
-        "non-aggregates; kind, name, size, alignment, fields with offset/bitshift/bitsize for "
-        "aggregates), constants and enumerators, list_types(), and functions/globals of the "
-        "dlopen()ed library (type identity, address, value read, write visible on the other "
-        "side); distinct = cdef text; non-trivial = cdef has an aggregate or typedef chain")
+        "optionally FILE*; plus 0-3 groups of extra forms: 8-byte/unsigned/anonymous/typedef'd "
+        "enums, anonymous typedef'd structs, named pointers, tagged typedef'd aggregates, empty/"
+        "opaque/self-referential aggregates, array lengths up to 2**31-1, qualifiers, variadic "
+        "functions, function-pointer/struct-by-value signatures, open-array/fn-pointer/pointer/"
+        "struct-array globals, negative #defines, value-less constants) under a seed-level mode "
+        "(packed/pack=N, ffi.include() split into base+derived module, compile() instead of "
+        "emit_python_code(), >255 type slots, shuffled access order, lib before types, dlopen "
+        "flags; cdefs with self-referential/opaque aggregates run one per process on the plain "
+        "backend); compared: every typedef/struct/union/enum (identity for non-aggregates; kind, "
+        "name, size, alignment, fields with offset/bitshift/bitsize for aggregates; one ctype "
+        "object per aggregate), constants and enumerators (in-line lib, out-of-line lib and "
+        "integer_const), list_types(), and functions/globals of the dlopen()ed library (type "
+        "identity, address, value read, write visible on the other side, dir()); distinct = cdef "
+        "text + mode; non-trivial = cdef has an aggregate or typedef chain")
 ASSUMPTIONS = ["the gcc-built shared object defines every declared function and global",
-               "sanitizer reports in the decoding path are recorded as observations (the statement does not speak about them)"]
+               "sanitizer reports in the decoding path are recorded as observations (the statement does not speak about them)",
+               "when emit_python_code()/compile() refuses loudly with its documented NotImplementedError "
+               "for cdef(pack=N>1) no module is written and nothing is compared (counted as "
+               "emit_refused_pack_gt_1 and noted)",
+               "a declaration that the in-line lib refuses to read (NotImplementedError: value-less / "
+               "non-integer constant in dlopen mode) is not compared, only read out-of-line",
+               "when realizing a declared type raises on both sides the outcome is equal (exception "
+               "types are not compared)"]
 SAN_DECIDES = False
+
+
+# ---------------------------------------------------------------------------
+# seed-level modes
+
+def modes(seed):
+    r = random.Random(seed ^ 0x5EED5EED)
+    m = {}
+    m['pack'] = r.choice([None] * 19 + ['packed', 'packed', 1, 1, r.choice([2, 4, 8])])
+    m['include'] = r.random() < 0.2
+    m['compile'] = r.random() < 0.15
+    m['shuffle'] = r.random() < 0.5
+    m['lib_first'] = r.random() < 0.4
+    m['dlflags'] = r.random() < 0.25
+    m['many'] = r.random() < 0.015
+    m['split'] = r.random()
+    m['order'] = r.getrandbits(32)
+    return m
+
+
+def cdef_kw(md):
+    if md['pack'] == 'packed':
+        return {'packed': True}
+    if md['pack']:
+        return {'pack': md['pack']}
+    return {}
+
+
+# ---------------------------------------------------------------------------
+# extra declaration forms
+
+XPRIMS = ['int', 'char', 'short', 'long long', 'double', 'unsigned char', 'float', 'uint32_t',
+          'long double', 'void *', 'char *', 'unsigned long', '_Bool', 'wchar_t', 'int16_t']
+XQUAL = ['const int', 'volatile short', 'const char *', 'char *const', 'const void *const',
+         'volatile unsigned long long', 'const double', 'int *restrict', 'const unsigned char *']
+BIGLEN = [255, 256, 257, 65535, 65536, 65537, 2 ** 24 - 1, 2 ** 24, 2 ** 24 + 1, 2 ** 31 - 1,
+          0x01020304, 0x00800000, 0x00008000]
+MIDLEN = [255, 256, 257, 300, 4096, 65535, 65536, 65537, 70000]
+WIDE_U = [2 ** 31, 2 ** 32 - 1, 2 ** 32, 2 ** 40 + 3, 2 ** 63 - 1, 2 ** 63, 2 ** 64 - 1, 0, 255,
+          2 ** 31 - 1]
+WIDE_S = [-2 ** 31, -2 ** 31 - 1, -2 ** 40, -(2 ** 63 - 1), 2 ** 31, 2 ** 32, 2 ** 62, 0, -1,
+          2 ** 31 - 1]
+SMALL = [0, 1, 2, 5, -1, -128, 127, 255, 256, 1000, -32768, 65535]
+
+
+class Extras(object):
+    def __init__(self, c, rng):
+        self.c, self.r = c, rng
+        self.n = 0
+        self.fn = 0
+        self.group = 0
+        c.xtdnames = set()
+        self.cplt = [a for a in c.g.decls if a['name'] and not a['flex']]
+        self.structs = [a for a in self.cplt if a['kind'] == 'struct']
+
+    def nm(self, stem):
+        self.n += 1
+        return '%sx%s%d' % (self.c.p, stem, self.n)
+
+    def add(self, d):
+        d['group'] = 'x%d' % self.group
+        self.c.items.append(d)
+
+    def xtype(self, form, text, typeexprs, tdnames=(), values=()):
+        self.c.xtdnames.update(tdnames)
+        d = {'kind': 'xtype', 'form': form, 'name': form, 'text': text,
+             'typeexprs': list(typeexprs), 'values': list(values)}
+        if values:
+            # no function or global uses the extra enums: they are left out of
+            # the C source (gcc rejects some value sequences cffi accepts)
+            d['ctext'] = ''
+        self.add(d)
+
+    def func(self, name, proto, body):
+        self.add({'kind': 'func', 'name': name, 'text': proto + ';',
+                  'cdef': '%s { %s }' % (proto, body), 'form': 'x'})
+
+    def glob(self, name, decl, init):
+        self.add({'kind': 'glob', 'name': name, 'type': {'k': 'x'}, 'text': 'extern %s;' % decl,
+                  'cdef': '%s = %s;' % (decl, init)})
+
+    def fields(self, nmax=4, allow_bits=True):
+        r = self.r
+        out = []
+        for _ in range(r.randint(1, nmax)):
+            self.fn += 1
+            f = 'xf%d' % self.fn
+            k = r.random()
+            if k < 0.3:
+                out.append('%s %s;' % (r.choice(XPRIMS), f))
+            elif k < 0.45:
+                out.append('%s %s;' % (r.choice(XQUAL), f))
+            elif k < 0.6 and allow_bits:
+                T, w = r.choice(GC.G.BF_TYPES)
+                out.append('%s %s : %d;' % (T, f, r.randint(1, w)))
+            elif k < 0.72:
+                out.append('%s %s[%d];' % (r.choice(['char', 'short', 'int', 'double']), f,
+                                           r.choice(MIDLEN)))
+            elif k < 0.84 and self.cplt:
+                a = r.choice(self.cplt)
+                out.append('%s %s %s%s;' % (a['kind'], a['name'], r.choice(['', '*', '**']), f))
+            elif k < 0.92 and self.c.enums:
+                out.append('enum %s %s;' % (r.choice(self.c.enums)['name'], f))
+            else:
+                out.append('void (*%s)(int, ...);' % f)
+        return ' '.join(out)
+
+    # ---- enums -----------------------------------------------------------
+    def f_enum(self):
+        r = self.r
+        pool = r.choice([WIDE_U, WIDE_S, WIDE_U, WIDE_S, SMALL])
+        vals = r.sample(pool, r.choice([1, 2, 3]))
+        tag = self.nm('e')
+        names, values = [], []
+        for i, v in enumerate(vals):
+            en = ('%s_%d' % (tag, i)).upper()
+            lit = ('0x%X' % v) if (v >= 0 and r.random() < 0.4) else '%d' % v
+            names.append('%s = %s' % (en, lit))
+            values.append((en, v))
+        if r.random() < 0.3 and vals[-1] not in (2 ** 63 - 1, 2 ** 64 - 1):
+            en = ('%s_N' % tag).upper()
+            names.append(en)
+            values.append((en, vals[-1] + 1))
+        body = '{ %s }' % ', '.join(names)
+        style = r.choice(['tag', 'anon-typedef', 'tag-typedef', 'anon'])
+        wide = 'wide-' if pool is not SMALL else ''
+        if style == 'tag':
+            self.xtype(wide + 'enum-tag', 'enum %s %s;' % (tag, body), ['enum ' + tag],
+                       values=values)
+        elif style == 'anon-typedef':
+            td = self.nm('t')
+            self.xtype(wide + 'enum-anon-typedef', 'typedef enum %s %s;' % (body, td), [td],
+                       [td], values)
+        elif style == 'tag-typedef':
+            td = self.nm('t')
+            self.xtype(wide + 'enum-tag-typedef', 'typedef enum %s %s %s;' % (tag, body, td),
+                       ['enum ' + tag, td], [td], values)
+        else:
+            self.xtype(wide + 'enum-anon', 'enum %s;' % body, [], values=values)
+
+    # ---- aggregates ------------------------------------------------------
+    def f_anon_typedef(self):
+        td = self.nm('t')
+        kind = self.r.choice(['struct', 'struct', 'union'])
+        self.xtype('anon-typedef-' + kind, 'typedef %s { %s } %s;' % (kind, self.fields(), td),
+                   [td], [td])
+        if self.r.random() < 0.5:
+            g = self.nm('g')
+            self.add({'kind': 'glob', 'name': g, 'type': {'k': 'x'},
+                      'text': 'extern %s %s;' % (td, g), 'cdef': '%s %s;' % (td, g)})
+
+    def f_named_pointer(self):
+        td = self.nm('t')
+        kind = self.r.choice(['struct', 'struct', 'union'])
+        self.xtype('named-pointer', 'typedef %s { %s } *%s;' % (kind, self.fields(), td),
+                   [td], [td])
+        if self.r.random() < 0.5:
+            f = self.nm('f')
+            self.func(f, '%s %s(%s a0, int a1)' % (td, f, td), 'return a0;')
+
+    def f_tag_typedef(self):
+        tag, td, tdp = self.nm('s'), self.nm('t'), self.nm('t')
+        kind = self.r.choice(['struct', 'struct', 'union'])
+        self.xtype('tag-typedef-' + kind, 'typedef %s %s { %s } %s, *%s;' %
+                   (kind, tag, self.fields(), td, tdp),
+                   ['%s %s' % (kind, tag), td, tdp], [td, tdp])
+
+    def f_empty(self):
+        tag = self.nm('s')
+        kind = self.r.choice(['struct', 'struct', 'union'])
+        self.xtype('empty-' + kind, '%s %s { };' % (kind, tag), ['%s %s' % (kind, tag)])
+        if self.r.random() < 0.5:
+            tag2 = self.nm('s')
+            self.xtype('holds-empty', 'struct %s { char xa; %s %s xe; int xb; };' %
+                       (tag2, kind, tag), ['struct ' + tag2])
+
+    def f_opaque(self):
+        r = self.r
+        t1, t2, t3 = self.nm('s'), self.nm('s'), self.nm('s')
+        td2, td3, f = self.nm('t'), self.nm('t'), self.nm('f')
+        k1, k2 = r.choice(['struct', 'union']), r.choice(['struct', 'union'])
+        self.xtype('opaque', '%s %s;\ntypedef %s %s %s;\ntypedef struct %s *%s;' %
+                   (k1, t1, k2, t2, td2, t3, td3),
+                   ['%s %s' % (k1, t1), '%s %s' % (k2, t2), td2, 'struct ' + t3, td3],
+                   [td2, td3])
+        self.func(f, '%s *%s(%s %s *a0, %s a1)' % (td2, f, k1, t1, td3), 'return 0;')
+        if r.random() < 0.5:
+            g = self.nm('g')
+            self.glob(g, '%s %s *%s' % (k1, t1, g), '(void *)0x1230')
+
+    def f_selfref(self):
+        r = self.r
+        a, b = self.nm('s'), self.nm('s')
+        style = r.choice(['self', 'mutual', 'typedef-self'])
+        if style == 'self':
+            self.xtype('self-ref', 'struct %s { struct %s *next; int v; struct %s *arr[2]; '
+                       'struct %s **pp; };' % (a, a, a, a), ['struct ' + a])
+        elif style == 'mutual':
+            self.xtype('mutual-ref', 'struct %s;\nstruct %s { struct %s *pa; int x; };\n'
+                       'struct %s { struct %s vb; struct %s *pb; struct %s *self; '
+                       'int (*cb)(struct %s *, struct %s); };' % (a, b, a, a, b, b, a, a, b),
+                       ['struct ' + a, 'struct ' + b])
+        else:
+            td = self.nm('t')
+            self.xtype('typedef-self-ref', 'typedef struct %s %s;\nstruct %s { %s *next; '
+                       '%s *(*get)(%s *); short v; };' % (a, td, a, td, td, td),
+                       ['struct ' + a, td], [td])
+        if r.random() < 0.5:
+            f = self.nm('f')
+            self.func(f, 'struct %s *%s(struct %s *a0)' % (a, f, a), 'return a0;')
+
+    def f_big_array(self):
+        r = self.r
+        td, td2, tag = self.nm('t'), self.nm('t'), self.nm('s')
+        n1, n2, n3 = r.choice(BIGLEN), r.choice(MIDLEN), r.choice(MIDLEN)
+        et = r.choice(['char', 'unsigned char', 'signed char'])
+        self.xtype('big-array', 'typedef %s %s[%d];\ntypedef short %s[3][%d];\n'
+                   'struct %s { char xa; short xb[%d]; int xc; %s *xd; };' %
+                   (et, td, n1, td2, n2, tag, n3, td),
+                   [td, td2, 'struct ' + tag], [td, td2])
+
+    def f_qualified(self):
+        r = self.r
+        t1, t2, t3, tag = self.nm('t'), self.nm('t'), self.nm('t'), self.nm('s')
+        q = r.sample(XQUAL, 3)
+        self.xtype('qualified', 'typedef %s %s;\ntypedef %s %s;\ntypedef %s %s[2];\n'
+                   'struct %s { %s }; ' % (q[0], t1, q[1], t2, q[2], t3, tag,
+                                           self.fields(3, allow_bits=False)),
+                   [t1, t2, t3, 'struct ' + tag], [t1, t2, t3])
+
+    def f_fnptr_typedef(self):
+        r = self.r
+        t1, t2, t3 = self.nm('t'), self.nm('t'), self.nm('t')
+        if self.structs:
+            s = r.choice(self.structs)
+            arg = 'struct %s' % s['name']
+        else:
+            arg = 'double'
+        en = ('enum %s' % r.choice(self.c.enums)['name']) if self.c.enums else 'int'
+        self.xtype('fnptr-typedef', 'typedef int (*%s)(%s, ...);\ntypedef %s (*%s)(%s, %s *);\n'
+                   'typedef %s %s[2];' % (t1, arg, en, t2, t1, arg, t1, t3),
+                   [t1, t2, t3], [t1, t2, t3])
+
+    # ---- functions -------------------------------------------------------
+    def f_variadic(self):
+        r = self.r
+        f = self.nm('f')
+        proto = r.choice(['int %s(int a0, ...)', 'double %s(const char *a0, double a1, ...)',
+                          'void *%s(void *a0, unsigned long a1, short a2, ...)',
+                          'long long %s(long long a0, ...)']) % f
+        self.func(f, proto, 'return 0;')
+
+    def f_func_shapes(self):
+        r = self.r
+        for _ in range(r.choice([1, 2])):
+            f = self.nm('f')
+            k = r.choice(['ret-fnptr', 'byval', 'array-arg', 'fnptr-arg', 'enum', 'qual'])
+            if k == 'ret-fnptr':
+                self.func(f, 'void (*%s(int a0))(void)' % f, 'return 0;')
+            elif k == 'byval' and self.structs:
+                s = 'struct %s' % r.choice(self.structs)['name']
+                self.func(f, '%s %s(%s a0, int a1)' % (s, f, s), 'return a0;')
+            elif k == 'array-arg':
+                self.func(f, 'int %s(int a0[3], char a1[], double a2[2][4])' % f, 'return 0;')
+            elif k == 'fnptr-arg':
+                self.func(f, 'int %s(int (*a0)(int, int), void (*a1)(void *, ...))' % f,
+                          'return 0;')
+            elif k == 'enum' and self.c.enums:
+                e = 'enum %s' % r.choice(self.c.enums)['name']
+                self.func(f, '%s %s(%s a0, %s *a1)' % (e, f, e, e), 'return a0;')
+            else:
+                self.func(f, 'const char *%s(const char *a0, char *const a1, '
+                          'const void *restrict a2)' % f, 'return a0;')
+
+    # ---- globals ---------------------------------------------------------
+    def f_glob_shapes(self):
+        r = self.r
+        for _ in range(r.choice([1, 2, 3])):
+            g = self.nm('g')
+            k = r.choice(['open', 'open2', 'fnptr', 'str', 'ld', 'agg-array', 'pp', '2d',
+                          'big', 'ptr-array'])
+            if k == 'open':
+                self.add({'kind': 'glob', 'name': g, 'type': {'k': 'x'}, 'nowrite': True,
+                          'text': 'extern int %s[];' % g, 'cdef': 'int %s[4] = {1, 2, 3, 4};' % g})
+            elif k == 'open2':
+                self.add({'kind': 'glob', 'name': g, 'type': {'k': 'x'}, 'nowrite': True,
+                          'text': 'extern double %s[][2];' % g,
+                          'cdef': 'double %s[3][2] = {{1.5, 2}, {3, 4}, {5, 6}};' % g})
+            elif k == 'fnptr':
+                self.glob(g, 'int (*%s)(int, char *)' % g, '(int (*)(int, char *))0x4321')
+            elif k == 'str':
+                self.glob(g, 'const char *%s' % g, '"x%d"' % self.n)
+            elif k == 'ld':
+                self.glob(g, 'long double %s' % g, '1.5L')
+            elif k == 'agg-array' and self.cplt:
+                a = r.choice(self.cplt)
+                self.add({'kind': 'glob', 'name': g, 'type': {'k': 'x'},
+                          'text': 'extern %s %s %s[2];' % (a['kind'], a['name'], g),
+                          'cdef': '%s %s %s[2];' % (a['kind'], a['name'], g)})
+            elif k == 'pp':
+                self.glob(g, 'char **%s' % g, '(char **)0x7770')
+            elif k == '2d':
+                self.glob(g, 'short %s[2][3]' % g, '{{1, 2, 3}, {4, 5, 6}}')
+            elif k == 'big':
+                self.glob(g, 'unsigned char %s[300]' % g, '{7, 8, 9}')
+            else:
+                self.glob(g, 'const char *const %s[3]' % g, '{"a", "bb", "ccc"}')
+
+    def f_valueless_const(self):
+        r = self.r
+        for _ in range(r.choice([1, 2])):
+            k = self.nm('K').upper()
+            text, cdef = r.choice([
+                ('static const int %s;', 'const int %s = 99;'),
+                ('static const long long %s;', 'const long long %s = -5000000000LL;'),
+                ('static const double %s;', 'const double %s = 2.5;'),
+                ('static char *const %s;', 'char *const %s = "hello";'),
+                ('extern const int %s;', 'const int %s = 42;'),
+                ('static const unsigned char %s;', 'const unsigned char %s = 200;')])
+            self.add({'kind': 'xconst', 'name': k, 'text': text % k, 'cdef': cdef % k})
+
+    def f_neg_const(self):
+        r = self.r
+        for _ in range(r.choice([1, 2])):
+            k = self.nm('K').upper()
+            v = r.choice([-1, -5, -255, -2 ** 31, -2 ** 31 - 1, -2 ** 32, -(2 ** 63 - 1), -2 ** 63,
+                          2 ** 32, 2 ** 40 + 1, 2 ** 62])
+            if r.random() < 0.6:
+                lit = '%d' % v if (v < 0 or r.random() < 0.5) else '0x%x' % v
+                text = '#define %s %s' % (k, lit)
+            else:
+                v = max(v, -(2 ** 63 - 1))
+                text = 'static const long long %s = %d;' % (k, v)
+            self.add({'kind': 'const', 'name': k, 'value': v, 'form': 'x', 'text': text,
+                      'ctext': text})
+
+    # ---- many type-table slots (index > 255 in the 4-byte opcodes) --------
+    def f_many(self, count=150):
+        names = []
+        lines = []
+        for i in range(count):
+            td = self.nm('t')
+            names.append(td)
+            lines.append('typedef short %s[%d];' % (td, 300 + i))
+        tag, f, g = self.nm('s'), self.nm('f'), self.nm('g')
+        lines.append('struct %s { %s xa; %s *xb; int xc : 3; %s xd; };' %
+                     (tag, names[-1], names[-2], names[-3]))
+        last = self.nm('t')
+        lines.append('typedef struct %s *%s;' % (tag, last))
+        self.xtype('many-types', '\n'.join(lines), names + ['struct ' + tag, last],
+                   names + [last])
+        self.func(f, '%s *%s(%s *a0, %s a1)' % (names[-4], f, names[-5], last), 'return 0;')
+        self.add({'kind': 'glob', 'name': g, 'type': {'k': 'x'},
+                  'text': 'extern %s %s;' % (names[-6], g), 'cdef': '%s %s = {3, 1, 4};' %
+                  (names[-6], g)})
+
+    FORMS = ['f_enum', 'f_enum', 'f_enum', 'f_anon_typedef', 'f_anon_typedef', 'f_named_pointer',
+             'f_named_pointer', 'f_tag_typedef', 'f_empty', 'f_empty', 'f_opaque', 'f_selfref',
+             'f_big_array', 'f_big_array', 'f_qualified', 'f_fnptr_typedef', 'f_variadic',
+             'f_variadic', 'f_func_shapes', 'f_func_shapes', 'f_glob_shapes', 'f_glob_shapes',
+             'f_valueless_const', 'f_neg_const']
+
+    def run(self, md):
+        r = self.r
+        for _ in range(r.choice([0, 1, 1, 2, 2, 3])):
+            self.group += 1
+            getattr(self, r.choice(self.FORMS))()
+        if md['many']:
+            self.group += 1
+            self.f_many(MANY_COUNT)
+
+
+MANY_COUNT = 150
 
 
 def make_ctx(seed):
     rnd = random.Random(seed)
-    return GC.Ctx(rnd, prefix='m%d_' % seed, nd=rnd.choice([6, 10, 14, 20]))
+    c = GC.Ctx(rnd, prefix='m%d_' % seed, nd=rnd.choice([6, 10, 14, 20]))
+    Extras(c, random.Random(seed ^ 0xE87A5)).run(modes(seed))
+    return c
+
+
+def c_source(c):
+    """definitions matching the cdef, for the dlopen()ed shared object (the
+    shared generator's c_source() does not know the extra kinds)"""
+    out = ['#include <stdint.h>', '#include <stddef.h>', '#include <sys/types.h>',
+           '#include <wchar.h>', '#include <uchar.h>']
+    for d in c.items:
+        k = d['kind']
+        if k in ('typedef', 'agg', 'enum', 'xtype'):
+            out.append(d.get('ctext', d['text']))
+        elif k == 'const':
+            out.append(d['ctext'])
+        elif k in ('func', 'glob', 'xconst'):
+            out.append(d['cdef'])
+    return '\n'.join(out) + '\n'
 
 
 def use_file(seed):
     return seed % 7 == 0
 
 
+def file_decl(seed):
+    return 'int m%d_usefile(FILE *f);\n' % seed
+
+
+def file_csrc(seed):
+    return '#include <stdio.h>\nint m%d_usefile(FILE *f) { return f != 0; }' % seed
+
+
+def split_point(c, md):
+    """index where the item list is cut into an included base and a derived
+    cdef: never inside a group of extra declarations (a forward declaration
+    completed later must stay in one ffi)"""
+    items = c.items
+    pts = [i for i in range(1, len(items))
+           if items[i].get('group') is None or items[i].get('group') != items[i - 1].get('group')]
+    if not pts:
+        return None
+    return pts[int(md['split'] * len(pts)) % len(pts)]
+
+
+def case_source(seed):
+    src = [c_source(make_ctx(seed))]
+    if use_file(seed):
+        src.append(file_csrc(seed))
+    return '\n'.join(src)
+
+
 def generate(ctx):
     rng = ctx.rng('gen')
-    n = ctx.scale(400, 12000)
-    per = 25
+    n = ctx.scale(360, 8000)
+    per = 24
     seeds = [rng.getrandbits(40) for _ in range(n)]
-    cases = [{'seeds': seeds[i:i + per], 'no': i // per} for i in range(0, n, per)]
+    # cdefs with self-/mutually-referential or opaque aggregates are compared
+    # one per process on the plain (gcc, assert-enabled) backend, see finalize()
+    rseeds = [s for s in seeds if risky(s)]
+    seeds = [s for s in seeds if not risky(s)]
+    cases = [{'seeds': seeds[i:i + per], 'no': i // per} for i in range(0, len(seeds), per)]
     import concurrent.futures as cf
 
     def build(case):
-        src = []
-        for s in case['seeds']:
-            c = make_ctx(s)
-            src.append(c.c_source())
-            if use_file(s):
-                src.append('#include <stdio.h>\nint m%d_usefile(FILE *f) { return f != 0; }'
-                           % s)
-        case['so'] = cc.build_so(ctx.tmp, '\n'.join(src), 'c11_%d.so' % case['no'])
-    with cf.ThreadPoolExecutor(8) as ex:
-        list(ex.map(build, cases))
-    return None, cases
+        case['so'] = cc.build_so(ctx.tmp, '\n'.join(case_source(s) for s in case['seeds']),
+                                 'c11_%d.so' % case['no'])
+    rcases = []
+    if rseeds:
+        rall = {'seeds': rseeds, 'no': 100000}
+        with cf.ThreadPoolExecutor(8) as ex:
+            list(ex.map(build, cases + [rall]))
+        rcases = [{'seeds': [s], 'no': 100001 + i, 'so': rall['so'], 'isolated': True}
+                  for i, s in enumerate(rseeds)]
+    else:
+        with cf.ThreadPoolExecutor(8) as ex:
+            list(ex.map(build, cases))
+    setup = {'isolated_cases': rcases}
+    if rcases:
+        # started now, collected in finalize(): runs beside the sanitized children
+        import threading
+        _ISO['obs'] = None
+
+        def run_iso():
+            try:
+                _ISO['obs'] = core.run_cases(ctx, 'c11', setup, rcases, variant='plain', nproc=4,
+                                             timeout=3600 if ctx.thorough else 900)
+            except Exception as e:
+                _ISO['error'] = repr(e)
+        _ISO['thread'] = threading.Thread(target=run_iso)
+        _ISO['thread'].start()
+    return setup, cases
+
+
+_ISO = {}
 
 
 def child_setup(setup, wd):
@@ -58,21 +542,33 @@ def child_setup(setup, wd):
     return {'wd': wd}
 
 
-def describe(ffi, t, depth=0):
+def describe(ffi, t, depth=0, acc=None):
     """comparable description of an aggregate ctype"""
     d = {'kind': t.kind, 'cname': t.cname}
+    if acc is not None:
+        acc.setdefault((t.kind, t.cname), set()).add(id(t))
     if t.kind in ('struct', 'union'):
+        opaque = False
         try:
             d['size'], d['align'] = ffi.sizeof(t), ffi.alignof(t)
         except Exception as e:
-            d['size'] = 'exc:' + type(e).__name__
+            d['size'] = 'exc'         # opaque: the exception classes differ by design
+            opaque = True
+        if opaque and id(ffi) in DEFERRED:
+            # .fields of an opaque out-of-line aggregate is read in a forked
+            # process (probe_deferred): on an assert-enabled backend it aborts
+            if id(t) not in DEFERRED[id(ffi)]:
+                DEFERRED[id(ffi)][id(t)] = t
+            fields = None
+        else:
+            fields = t.fields
         fl = []
-        if t.fields is not None:
-            for name, f in t.fields:
+        if fields is not None:
+            for name, f in fields:
                 ft = f.type
-                fd = tdesc(ffi, ft, depth + 1)
+                fd = tdesc(ffi, ft, depth + 1, acc)
                 fl.append((name, f.offset, f.bitshift, f.bitsize, f.flags, fd))
-        d['fields'] = fl if t.fields is not None else None
+        d['fields'] = fl if fields is not None else None
     elif t.kind == 'enum':
         d['size'] = ffi.sizeof(t)
         d['elements'] = sorted(t.elements.items())
@@ -81,23 +577,108 @@ def describe(ffi, t, depth=0):
     return d
 
 
-def tdesc(ffi, t, depth=0):
+DEFERRED = {}      # id(out-of-line ffi) -> {id(ctype): ctype} whose .fields is still to be read
+
+
+def abort_mechanism(status_or_rc, err):
+    """(mechanism, description) of a process killed while comparing: the
+    failed assertion's function when there is one"""
+    import re
+    m = re.search(r"\.[ch]:\d+: (.*?): Assertion `(.*?)' failed", err)
+    if m:
+        fn = m.group(1)
+        if '(' in fn:
+            fn = fn[:fn.index('(')]
+        fn = (re.findall(r'\w+', fn) or ['?'])[-1]
+        return 'abort:assert:' + fn, "assertion `%s' failed in %s" % (m.group(2), fn)
+    m = re.search(r"Fatal Python error: (\w+): (.+)", err)
+    if m:
+        return 'abort:fatal:' + m.group(1), "Py_FatalError in %s: %s" % (m.group(1), m.group(2))
+    return 'abort:rc=%s' % status_or_rc, 'process died (%s): %s' % (status_or_rc, err[-800:])
+
+
+def probe_deferred(pending, rep, wd, fork):
+    """pending: [(seed, ffi2, ctype)]: read .fields of the opaque out-of-line
+    aggregates (the in-line value is None); in a forked process when asked
+    (on an assert-enabled backend the read can abort)"""
+    if not pending:
+        return
+    if not fork:
+        for seed, ffi, t in pending:
+            rep.stat('opaque_fields_read')
+            if t.fields is not None:
+                rep.bad('aggregate-differs', '%s is opaque in-line (fields None), out-of-line '
+                        '.fields is a list :: cdef seed %d' % (t.cname, seed), seed)
+        return
+    import tempfile
+    rep.stat('opaque_fields_read_in_fork', len(pending))
+    r, w = os.pipe()
+    errf = tempfile.NamedTemporaryFile(dir=wd, prefix='probe-', suffix='.err', delete=False)
+    sys.stdout.flush()
+    sys.stderr.flush()
+    pid = os.fork()
+    if pid == 0:
+        try:
+            os.close(r)
+            os.dup2(errf.fileno(), 2)
+            for i, (seed, ffi, t) in enumerate(pending):
+                os.write(w, ('S %d\n' % i).encode())
+                v = t.fields
+                os.write(w, ('R %d %s\n' % (i, 'None' if v is None else 'list')).encode())
+        finally:
+            os._exit(0)
+    os.close(w)
+    data = b''
+    while True:
+        chunk = os.read(r, 65536)
+        if not chunk:
+            break
+        data += chunk
+    os.close(r)
+    status = os.waitpid(pid, 0)[1]
+    errf.close()
+    with open(errf.name, 'rb') as f:
+        err = f.read().decode(errors='replace')
+    os.unlink(errf.name)
+    started, results = set(), {}
+    for line in data.decode().splitlines():
+        f = line.split()
+        if f[0] == 'S':
+            started.add(int(f[1]))
+        else:
+            results[int(f[1])] = f[2]
+    for i, v in sorted(results.items()):
+        if v != 'None':
+            seed, ffi, t = pending[i]
+            rep.bad('aggregate-differs', '%s is opaque in-line (fields None), out-of-line '
+                    '.fields is a list :: cdef seed %d' % (t.cname, seed), seed)
+    if os.WIFSIGNALED(status):
+        i = max(started) if started else 0
+        seed, ffi, t = pending[i]
+        mech, what = abort_mechanism('signal %d' % os.WTERMSIG(status), err)
+        rep.bad(mech, "reading .fields of the out-of-line ctype '%s' (opaque aggregate; the "
+                "in-line ctype's .fields is None): %s :: cdef seed %d" % (t.cname, what, seed),
+                seed)
+    elif len(results) != len(pending):
+        rep.bad('harness-fork-probe', 'forked probe returned %d of %d results (status %r): %s' %
+                (len(results), len(pending), status, err[-300:]), pending[0][0])
+
+
+def tdesc(ffi, t, depth=0, acc=None):
     """comparable description of any ctype: identity for non-aggregate types
     that do not involve an aggregate, structure otherwise"""
     if t.kind in ('struct', 'union', 'enum'):
-        return describe(ffi, t, depth) if depth < 5 else {'kind': t.kind, 'cname': t.cname}
+        if depth < 5:
+            return describe(ffi, t, depth, acc)
+        return {'kind': t.kind, 'cname': t.cname}
     if not over_aggregate(t):
         return ('id', id(t))
     if t.kind in ('pointer', 'array'):
-        return (t.kind, getattr(t, 'length', None), tdesc(ffi, t.item, depth + 1))
+        return (t.kind, getattr(t, 'length', None), tdesc(ffi, t.item, depth + 1, acc))
     if t.kind == 'function':
-        return ('function', [tdesc(ffi, a, depth + 1) for a in t.args],
-                tdesc(ffi, t.result, depth + 1), t.ellipsis, t.abi)
+        return ('function', [tdesc(ffi, a, depth + 1, acc) for a in t.args],
+                tdesc(ffi, t.result, depth + 1, acc), t.ellipsis, t.abi)
     return ('other', t.kind, t.cname)
-
-
-def same_type(ffi1, t1, ffi2, t2):
-    return tdesc(ffi1, t1) == tdesc(ffi2, t2)
 
 
 def strip_cnames(d):
@@ -115,7 +696,7 @@ def cname_only(ffi1, t1, ffi2, t2, c):
         return None
     d1, d2 = tdesc(ffi1, t1), tdesc(ffi2, t2)
     if strip_cnames(d1) == strip_cnames(d2):
-        tdnames = set(d['name'] for d in c.typedefs)
+        tdnames = set(d['name'] for d in c.typedefs) | getattr(c, 'xtdnames', set())
         if has_typedef_cname(d1, tdnames):
             return 'aggregate-cname-forced-by-typedef'
     return None
@@ -142,162 +723,582 @@ def over_aggregate(t):
     return False
 
 
-def child_case(st, case):
-    import importlib
-    from cffi import FFI
-    rep = core.ChildRep()
-    for seed in case['seeds']:
-        c = make_ctx(seed)
-        text = c.cdef_text()
+def outcome(fn):
+    try:
+        return True, fn()
+    except Exception as e:
+        return False, '%s: %s' % (type(e).__name__, e)
+
+
+def gvalue(ffi, v):
+    """comparable value of what reading a global gave"""
+    if not isinstance(v, ffi.CData):
+        return ('py', v)
+    k = ffi.typeof(v).kind
+    if k in ('pointer', 'function'):
+        return ('ptr', int(ffi.cast('uintptr_t', v)))
+    if k == 'array':
+        return ('array', int(ffi.cast('uintptr_t', v)), len(v))
+    if k in ('struct', 'union'):
+        return ('ref', int(ffi.cast('uintptr_t', ffi.addressof(v))))
+    if k == 'primitive':
+        try:
+            return ('prim', float(v))
+        except Exception:
+            return ('prim', repr(v))
+    return ('other', k)
+
+
+def emit_module(ffib, modname, wd, use_compile):
+    ffib.set_source(modname, None)
+    path = os.path.join(wd, modname + '.py')
+    if use_compile:
+        ffib.compile(tmpdir=wd)
+    else:
+        ffib.emit_python_code(path)
+    if not os.path.exists(path):
+        raise RuntimeError('no module file written at %s' % path)
+
+
+class Pair(object):
+    """one seed: the in-line ffi (ffi1) and the imported out-of-line one (ffi2)"""
+
+    def __init__(self, st, case, seed, rep):
+        self.st, self.case, self.seed, self.rep = st, case, seed, rep
+        self.c = make_ctx(seed)
+        self.md = modes(seed)
+        self.acc1, self.acc2 = {}, {}
+        self.tainted = False
+        self.anon_both = False
+
+    TYPE_MECHS = ('typedef-differs', 'aggregate-differs', 'enum-differs', 'xtype-differs:',
+                  'function-type-differs', 'global-type-differs', 'typeof-outcome-differs:',
+                  'layout-outcome-differs', 'aggregate-identity-split', 'compare-raised:',
+                  'lib-compare-raised:', 'function-outcome-differs')
+
+    def bad(self, mech, msg):
+        if self.anon_both and mech.startswith(self.TYPE_MECHS) and \
+                mech != 'aggregate-identity-split:enum-of-included-ffi':
+            # classifier of a reproduced defect: the included and the including
+            # cdef both number their anonymous aggregates from '$1'; the
+            # out-of-line module looks aggregates up by name and mixes them up,
+            # which also changes (or breaks) every type that contains one of them
+            mech = 'include-anonymous-name-collision'
+        self.rep.bad(mech, msg + ' :: cdef seed %d' % self.seed, self.seed)
+
+    # ---- construction ------------------------------------------------------
+    def build(self):
+        import importlib
+        from cffi import FFI
+        c, md, seed, rep = self.c, self.md, self.seed, self.rep
+        kw = cdef_kw(md)
+        items = c.items
+        k = split_point(c, md) if md['include'] else None
+        base_text = ''.join(d['text'] + '\n' for d in items[:k]) if k else ''
+        text = ''.join(d['text'] + '\n' for d in items[k or 0:])
         if use_file(seed):
-            text += 'int m%d_usefile(FILE *f);\n' % seed
+            text += file_decl(seed)
+        self.text = base_text + '/* derived */\n' + text if k else text
+        self.nbase = k or 0
+        modname = '_c11_%d' % seed
         try:
             ffi1 = FFI()
-            ffi1.cdef(text)
             ffib = FFI()
-            ffib.cdef(text)
-            modname = '_c11_%d' % seed
-            ffib.set_source(modname, None)
-            ffib.emit_python_code(os.path.join(st['wd'], modname + '.py'))
+            if k:
+                ffi1b = FFI()
+                ffi1b.cdef(base_text, **kw)
+                ffi1.include(ffi1b)
+                ffibb = FFI()
+                ffibb.cdef(base_text, **kw)
+                ffib.include(ffibb)
+            ffi1.cdef(text, **kw)
+            ffib.cdef(text, **kw)
+        except Exception as e:
+            import traceback
+            rep.bad('harness-cdef-raised', 'generated cdef not accepted in-line: %s :: %s' %
+                    (traceback.format_exc()[-400:], self.text[:300]), seed)
+            return False
+        self.ffi1 = ffi1
+        if not self.inline_accepts():
+            # the in-line FFI refuses a declaration when it is first used (e.g.
+            # a bitfield layout 'packed' cannot express): not a cdef accepted
+            # in-line, outside the statement
+            rep.stat('cdef_refused_inline_on_first_use')
+            return False
+        # anonymous aggregates are numbered per cdef parser ('$1', '$2', ...)
+        self.anon_both = bool(k and ffi1b._parser._anonymous_counter and
+                              ffi1._parser._anonymous_counter)
+        try:
+            if k:
+                emit_module(ffibb, modname + '_b', self.st['wd'], md['compile'])
+            emit_module(ffib, modname, self.st['wd'], md['compile'])
             m = importlib.import_module(modname)
             ffi2 = m.ffi
         except Exception as e:
             import traceback
-            rep.bad('setup-raised:' + type(e).__name__, 'cdef/emit/import failed: %s :: %s' %
-                    (traceback.format_exc()[-500:], text[:300]), seed)
-            continue
-        nontriv = any(d['kind'] in ('agg', 'typedef') for d in c.items)
-        rep.case(text, nontrivial=nontriv, sample={'cdef': text[:500]})
+            if isinstance(e, NotImplementedError) and isinstance(md['pack'], int) and \
+                    md['pack'] > 1 and "'pack=" in str(e):
+                rep.stat('emit_refused_pack_gt_1')
+                return False
+            rep.bad('setup-raised:' + type(e).__name__, 'emit/import failed: %s :: %s' %
+                    (traceback.format_exc()[-500:], self.text[:300]), seed)
+            return False
+        self.ffi1, self.ffi2 = ffi1, ffi2
+        DEFERRED[id(ffi2)] = {}
+        nontriv = any(d['kind'] in ('agg', 'typedef', 'xtype') for d in c.items)
+        rep.case(self.text + repr(sorted((a, b) for a, b in md.items()
+                                          if a in ('pack', 'include', 'compile'))),
+                 nontrivial=nontriv, sample={'cdef': self.text[:500], 'mode': {
+                     a: md[a] for a in ('pack', 'include', 'compile', 'shuffle', 'lib_first',
+                                        'dlflags', 'many')}})
+        if md['pack']:
+            rep.stat('mode_pack_%s' % md['pack'])
+        if k:
+            rep.stat('mode_include')
+        if md['compile']:
+            rep.stat('mode_compile_entry')
+        if md['many']:
+            rep.stat('mode_many_type_slots')
+        return True
 
-        def bad(mech, msg):
-            rep.bad(mech, msg + ' :: cdef seed %d' % seed, seed)
+    def declared_type_exprs(self, d):
+        k = d['kind']
+        if k == 'typedef':
+            return [d['name']]
+        if k == 'agg':
+            return ['%s %s' % (d['agg']['kind'], d['name'])]
+        if k == 'enum':
+            return ['enum ' + d['name']]
+        if k == 'xtype':
+            return d['typeexprs']
+        return []
+
+    def inline_accepts(self):
+        ffi1 = self.ffi1
+        for d in self.c.items:
+            for expr in self.declared_type_exprs(d):
+                try:
+                    t = ffi1.typeof(expr)
+                    if t.kind in ('struct', 'union'):
+                        ffi1.sizeof(t)
+                except NotImplementedError:
+                    return False
+                except Exception:
+                    pass          # opaque: no size
+        return True
+
+    def differs(self, default, d1, d2):
+        return default            # see bad(): seed-level classification
+
+    def dlopen(self):
+        so = self.case['so']
+        if self.md['dlflags']:
+            f1 = self.ffi1.RTLD_NOW | self.ffi1.RTLD_LOCAL
+            f2 = self.ffi2.RTLD_NOW | self.ffi2.RTLD_LOCAL
+            self.rep.stat('dlopen_with_flags')
+            return self.ffi1.dlopen(so, f1), self.ffi2.dlopen(so, f2)
+        return self.ffi1.dlopen(so), self.ffi2.dlopen(so)
+
+    def order(self, salt):
+        items = list(enumerate(self.c.items))
+        if self.md['shuffle']:
+            random.Random(self.md['order'] ^ salt).shuffle(items)
+        return items
+
+    # ---- types -------------------------------------------------------------
+    def typeof_pair(self, what, expr):
+        """(t1, t2) or None when both sides refuse equally / a violation was recorded"""
+        o1, o2 = outcome(lambda: self.ffi1.typeof(expr)), outcome(lambda: self.ffi2.typeof(expr))
+        if o1[0] and o2[0]:
+            return o1[1], o2[1]
+        if not o1[0] and not o2[0]:
+            self.rep.stat('typeof_raises_on_both_sides')
+            return None
+        # one side is lazier than the other: the side that answered must also
+        # be able to lay the type out, otherwise both refuse the declaration
+        if o1[0]:
+            forced = outcome(lambda: tdesc(self.ffi1, o1[1]))
+        else:
+            forced = outcome(lambda: tdesc(self.ffi2, o2[1]))
+        if not forced[0]:
+            self.rep.stat('typeof_raises_on_both_sides_lazily')
+            return None
+        self.tainted = True
+        mech = 'typeof-outcome-differs:' + what
+        if o1[0] and ('has incomplete type' in o2[1] or 'invalid result type' in o2[1]) and \
+                any(d.get('form') == 'mutual-ref' for d in self.c.items):
+            # classifier of a reproduced defect: the out-of-line module completes
+            # every struct as soon as it is realized (its size is not in the
+            # module), so a struct reached again, by value in a function-pointer
+            # signature, while it is being completed is still incomplete
+            mech = 'ool-eager-completion:by-value-in-signature-of-mutual-struct'
+        self.bad(mech, '%s: in-line %s, out-of-line %s' %
+                 (expr, o1[1] if not o1[0] else 'ok', o2[1] if not o2[0] else 'ok'))
+        return None
+
+    def same_type(self, t1, t2):
+        o1 = outcome(lambda: tdesc(self.ffi1, t1, 0, self.acc1))
+        o2 = outcome(lambda: tdesc(self.ffi2, t2, 0, self.acc2))
+        if o1[0] and o2[0]:
+            return o1[1] == o2[1]
+        if not o1[0] and not o2[0]:
+            self.rep.stat('layout_raises_on_both_sides')
+            return True
+        self.bad('layout-outcome-differs', 'describing %r / %r: in-line %s, out-of-line %s' %
+                 (t1, t2, o1[1] if not o1[0] else 'ok', o2[1] if not o2[0] else 'ok'))
+        return True
+
+    def cname_only(self, t1, t2):
         try:
-            clib1, clib2 = ffi1.dlopen(case['so']), ffi2.dlopen(case['so'])
+            return cname_only(self.ffi1, t1, self.ffi2, t2, self.c)
+        except Exception:
+            return None
+
+    def enumerators(self, values, clib1, clib2):
+        ffi2 = self.ffi2
+        for en, v in values:
+            v1, v2, v3 = getattr(clib1, en), ffi2.integer_const(en), getattr(clib2, en)
+            if v1 != v2 or v1 != v or v3 != v:
+                self.bad('enumerator-value', '%s: in-line %r, out-of-line integer_const %r, '
+                         'lib %r, declared %r' % (en, v1, v2, v3, v))
+
+    def compare_types(self):
+        rep, c, ffi1, ffi2 = self.rep, self.c, self.ffi1, self.ffi2
+        try:
+            clib1, clib2 = self.dlopen()
         except Exception as e:
-            bad('dlopen-raised', str(e))
-            continue
-        for d in c.items:
+            self.bad('dlopen-raised', str(e))
+            return
+        for idx, d in self.order(1):
             k = d['kind']
             try:
                 if k == 'typedef':
                     rep.stat('typedefs')
-                    t1, t2 = ffi1.typeof(d['name']), ffi2.typeof(d['name'])
-                    if not same_type(ffi1, t1, ffi2, t2):
-                        bad(cname_only(ffi1, t1, ffi2, t2, c) or 'typedef-differs',
-                            'typedef %s: in-line %r, out-of-line %r (%s)' %
-                            (d['name'], t1, t2, d['text']))
+                    tt = self.typeof_pair('typedef', d['name'])
+                    if tt is None:
+                        continue
+                    t1, t2 = tt
+                    if not self.same_type(t1, t2):
+                        self.bad(self.cname_only(t1, t2) or self.differs(
+                            'typedef-differs', tdesc(ffi1, t1), tdesc(ffi2, t2)),
+                                 'typedef %s: in-line %r, out-of-line %r (%s)' %
+                                 (d['name'], t1, t2, d['text']))
                     elif t1 is t2:
                         rep.stat('typedefs_identical_object')
                 elif k == 'agg':
                     rep.stat('aggregates')
                     tag = '%s %s' % (d['agg']['kind'], d['name'])
-                    d1, d2 = describe(ffi1, ffi1.typeof(tag)), describe(ffi2, ffi2.typeof(tag))
-                    if d1 != d2:
-                        bad(cname_only(ffi1, ffi1.typeof(tag), ffi2, ffi2.typeof(tag), c) or
-                            'aggregate-differs', '%s: in-line %r, out-of-line %r (%s)' %
-                            (tag, d1, d2, d['text'][:300]))
+                    tt = self.typeof_pair('aggregate', tag)
+                    if tt is None:
+                        continue
+                    if not self.same_type(*tt):
+                        d1, d2 = tdesc(ffi1, tt[0]), tdesc(ffi2, tt[1])
+                        self.bad(self.cname_only(*tt) or self.differs('aggregate-differs', d1, d2),
+                                 '%s: in-line %r, out-of-line %r (%s)' %
+                                 (tag, d1, d2, d['text'][:300]))
                 elif k == 'enum':
                     rep.stat('enums')
                     tag = 'enum ' + d['name']
-                    d1, d2 = describe(ffi1, ffi1.typeof(tag)), describe(ffi2, ffi2.typeof(tag))
-                    if d1 != d2:
-                        bad('enum-differs', '%s: in-line %r, out-of-line %r' % (tag, d1, d2))
-                    for en, v in d['values']:
-                        v1, v2 = getattr(clib1, en), ffi2.integer_const(en)
-                        if v1 != v2 or v1 != v:
-                            bad('enumerator-value', '%s: in-line %r, out-of-line %r, declared %r'
-                                % (en, v1, v2, v))
+                    tt = self.typeof_pair('enum', tag)
+                    if tt is not None and not self.same_type(*tt):
+                        self.bad('enum-differs', '%s: in-line %r, out-of-line %r' %
+                                 (tag, tdesc(ffi1, tt[0]), tdesc(ffi2, tt[1])))
+                    self.enumerators(d['values'], clib1, clib2)
+                elif k == 'xtype':
+                    rep.stat('x_' + d['form'])
+                    exprs = list(d['typeexprs'])
+                    if self.md['shuffle']:
+                        exprs.reverse()
+                    for expr in exprs:
+                        rep.stat('x_types_compared')
+                        tt = self.typeof_pair(d['form'], expr)
+                        if tt is None:
+                            continue
+                        if not self.same_type(*tt):
+                            d1, d2 = tdesc(ffi1, tt[0]), tdesc(ffi2, tt[1])
+                            self.bad(self.cname_only(*tt) or
+                                     self.differs('xtype-differs:' + d['form'], d1, d2),
+                                     '%s: in-line %r = %r, out-of-line %r = %r (%s)' %
+                                     (expr, tt[0], d1, tt[1], d2, d['text'][:300]))
+                        elif tt[0] is tt[1]:
+                            rep.stat('x_types_identical_object')
+                    if d['values']:
+                        rep.stat('x_enumerators', len(d['values']))
+                        self.enumerators(d['values'], clib1, clib2)
                 elif k == 'const':
                     rep.stat('constants')
+                    if d['value'] < 0:
+                        rep.stat('constants_negative')
                     v1, v2 = getattr(clib1, d['name']), ffi2.integer_const(d['name'])
                     if getattr(clib2, d['name']) != v2:
-                        bad('constant-value', '%s: lib attribute and integer_const differ' %
-                            d['name'])
+                        self.bad('constant-value', '%s: lib attribute and integer_const differ' %
+                                 d['name'])
                     if v1 != v2 or v1 != d['value']:
-                        bad('constant-value', '%s: in-line %r, out-of-line %r, declared %r (%s)' %
-                            (d['name'], v1, v2, d['value'], d['text']))
+                        self.bad('constant-value', '%s: in-line %r, out-of-line %r, declared %r '
+                                 '(%s)' % (d['name'], v1, v2, d['value'], d['text']))
             except Exception as e:
-                bad('compare-raised:' + type(e).__name__, '%s %s: %s' % (k, d['name'], e))
+                self.bad('compare-raised:' + type(e).__name__, '%s %s: %s' % (k, d['name'], e))
         l1, l2 = ffi1.list_types(), ffi2.list_types()
         rep.stat('list_types_compared')
         if l1 != l2:
-            extra = set(map(tuple, [l2[0]])) if False else None
             diff1 = [sorted(set(a) - set(b)) for a, b in zip(l1, l2)]
             diff2 = [sorted(set(b) - set(a)) for a, b in zip(l1, l2)]
-            if use_file(seed) and diff1 == [[], [], []] and diff2 == [['FILE'], ['_IO_FILE'], []]:
+            if use_file(self.seed) and diff1 == [[], [], []] and \
+                    diff2 == [['FILE'], ['_IO_FILE'], []]:
                 rep.bad('FILE-in-list_types', 'cdef using FILE: out-of-line list_types() has '
-                        'additionally %r' % (diff2,), seed)
+                        'additionally %r' % (diff2,), self.seed)
             else:
-                bad('list_types-differs', 'only in-line: %r, only out-of-line: %r' %
-                    (diff1, diff2))
-        # the dlopen()ed library
+                self.bad('list_types-differs', 'only in-line: %r, only out-of-line: %r' %
+                         (diff1, diff2))
+
+    def check_identity(self):
+        """every aggregate reached while describing (through fields, typedefs,
+        signatures) is one ctype object per name out-of-line whenever it is
+        in-line: the field / argument types of one ffi refer to that ffi's
+        own struct, union and enum types"""
+        if self.tainted:
+            return            # a realization failed half-way: reported already
+        self.rep.stat('aggregate_identity_checked', len(self.acc2))
+        base_enums = set()
+        for d in self.c.items[:self.nbase]:
+            if d['kind'] == 'enum':
+                base_enums.add('enum ' + d['name'])
+            elif d['kind'] == 'xtype' and d['values']:
+                base_enums.update(d['typeexprs'])
+        for key, ids in self.acc2.items():
+            n1 = len(self.acc1.get(key, ()))
+            if len(ids) > 1 and len(ids) > n1:
+                mech = self.differs('aggregate-identity-split', None, None)
+                if key[0] == 'enum' and key[1] in base_enums:
+                    mech = 'aggregate-identity-split:enum-of-included-ffi'
+                self.bad(mech, '%s %s: %d distinct ctype objects reachable out-of-line, %d '
+                         'in-line' % (key[0], key[1], len(ids), n1))
+
+    # ---- the dlopen()ed library ---------------------------------------------
+    def compare_lib(self):
+        rep, c, ffi1, ffi2 = self.rep, self.c, self.ffi1, self.ffi2
         try:
-            lib1, lib2 = ffi1.dlopen(case['so']), ffi2.dlopen(case['so'])
+            lib1, lib2 = self.dlopen()
         except Exception as e:
-            bad('dlopen-raised', str(e))
-            continue
-        for d in c.items:
+            self.bad('dlopen-raised', str(e))
+            return
+        names = []
+        for idx, d in self.order(2):
+            included = idx < self.nbase
             try:
+                if d['kind'] in ('func', 'glob') and included:
+                    # functions and globals of an included ffi: neither lib
+                    # gives them (they belong to the included ffi's own lib)
+                    rep.stat('included_symbols')
+                    o1 = outcome(lambda: getattr(lib1, d['name']))
+                    o2 = outcome(lambda: getattr(lib2, d['name']))
+                    if o1[0] != o2[0]:
+                        self.bad('included-symbol-exposure-differs', '%s %s of the included ffi: '
+                                 'in-line %s, out-of-line %s' % (d['kind'], d['name'], o1, o2))
+                    continue
+                if d['kind'] in ('func', 'glob'):
+                    names.append(d['name'])
                 if d['kind'] == 'func':
                     rep.stat('functions')
-                    f1, f2 = getattr(lib1, d['name']), getattr(lib2, d['name'])
+                    if d.get('form') == 'x':
+                        rep.stat('x_functions')
+                    if '...' in d['text']:
+                        rep.stat('functions_variadic')
+                    o1 = outcome(lambda: getattr(lib1, d['name']))
+                    o2 = outcome(lambda: getattr(lib2, d['name']))
+                    if not o1[0] and not o2[0]:
+                        rep.stat('function_raises_on_both_sides')
+                        continue
+                    if o1[0] != o2[0]:
+                        self.bad('function-outcome-differs', '%s: in-line %s, out-of-line %s (%s)'
+                                 % (d['name'], o1, o2, d['text']))
+                        continue
+                    f1, f2 = o1[1], o2[1]
                     t1, t2 = ffi1.typeof(f1), ffi2.typeof(f2)
-                    if not same_type(ffi1, t1, ffi2, t2):
-                        bad(cname_only(ffi1, t1, ffi2, t2, c) or 'function-type-differs',
-                            '%s: %r vs %r' % (d['name'], t1, t2))
+                    if not self.same_type(t1, t2):
+                        self.bad(self.cname_only(t1, t2) or self.differs(
+                            'function-type-differs', tdesc(ffi1, t1), tdesc(ffi2, t2)),
+                                 '%s: %r vs %r' % (d['name'], t1, t2))
+                    a0 = int(ffi1.cast('uintptr_t', ffi1.addressof(lib1, d['name'])))
                     a1 = int(ffi1.cast('uintptr_t', f1))
                     a2 = int(ffi2.cast('uintptr_t', f2))
                     a3 = int(ffi2.cast('uintptr_t', ffi2.addressof(lib2, d['name'])))
-                    if a1 != a2 or a2 != a3:
-                        bad('function-address-differs', '%s: %#x / %#x / %#x' %
-                            (d['name'], a1, a2, a3))
+                    if a0 != a1 or a1 != a2 or a2 != a3:
+                        self.bad('function-address-differs', '%s: %#x / %#x / %#x / %#x' %
+                                 (d['name'], a0, a1, a2, a3))
                 elif d['kind'] == 'glob':
                     rep.stat('globals')
                     p1, p2 = ffi1.addressof(lib1, d['name']), ffi2.addressof(lib2, d['name'])
                     g1, g2 = getattr(lib1, d['name']), getattr(lib2, d['name'])
                     if isinstance(g1, ffi1.CData) != isinstance(g2, ffi2.CData) or (
-                            isinstance(g1, ffi1.CData) and not same_type(
-                                ffi1, ffi1.typeof(g1), ffi2, ffi2.typeof(g2))):
-                        bad((cname_only(ffi1, ffi1.typeof(g1), ffi2, ffi2.typeof(g2), c)
-                             if isinstance(g1, ffi1.CData) and isinstance(g2, ffi2.CData) else
-                             None) or 'global-type-differs', '%s: %r vs %r' % (d['name'], g1, g2))
+                            isinstance(g1, ffi1.CData) and not self.same_type(
+                                ffi1.typeof(g1), ffi2.typeof(g2))):
+                        self.bad((self.cname_only(ffi1.typeof(g1), ffi2.typeof(g2))
+                                  if isinstance(g1, ffi1.CData) and isinstance(g2, ffi2.CData) else
+                                  None) or self.differs('global-type-differs', g1, g2),
+                                 '%s: %r vs %r (%s)' % (d['name'], g1, g2, d['text']))
                     if int(ffi1.cast('uintptr_t', p1)) != int(ffi2.cast('uintptr_t', p2)):
-                        bad('global-address-differs', d['name'])
-                    r = c.resolve(d['type'])
+                        self.bad('global-address-differs', d['name'])
+                    v1, v2 = gvalue(ffi1, g1), gvalue(ffi2, g2)
+                    rep.stat('global_reads_' + v1[0])
+                    if v1 != v2:
+                        self.bad('global-value-differs', '%s: %r vs %r (%s)' %
+                                 (d['name'], v1, v2, d['text']))
+                    r = c.resolve(d['type']) if d['type']['k'] != 'x' else d['type']
                     if r['k'] == 'prim' and r['name'] not in ('void',):
-                        v1, v2 = getattr(lib1, d['name']), getattr(lib2, d['name'])
-                        if v1 != v2:
-                            bad('global-value-differs', '%s: %r vs %r' % (d['name'], v1, v2))
+                        v1 = g1
                         nv = {'char': b'Q', '_Bool': True, 'float': 2.5,
                               'double': -7.25}.get(r['name'], 77)
                         setattr(lib1, d['name'], nv)
                         if getattr(lib2, d['name']) != nv:
-                            bad('global-write-not-visible', '%s written in-line, out-of-line reads '
-                                '%r' % (d['name'], getattr(lib2, d['name'])))
+                            self.bad('global-write-not-visible', '%s written in-line, out-of-line '
+                                     'reads %r' % (d['name'], getattr(lib2, d['name'])))
                         setattr(lib2, d['name'], v1)
                         if getattr(lib1, d['name']) != v1:
-                            bad('global-write-not-visible', '%s written out-of-line, in-line '
-                                'reads %r' % (d['name'], getattr(lib1, d['name'])))
+                            self.bad('global-write-not-visible', '%s written out-of-line, in-line '
+                                     'reads %r' % (d['name'], getattr(lib1, d['name'])))
                         rep.stat('global_writes')
-                    else:
-                        getattr(lib1, d['name'])
-                        getattr(lib2, d['name'])
+                    elif v1[0] == 'ptr' and not d.get('nowrite'):
+                        # pointer-typed global: write through one lib, read through the other
+                        old = g1
+                        setattr(lib1, d['name'], ffi1.cast(ffi1.typeof(g1), 0x5550))
+                        w = gvalue(ffi2, getattr(lib2, d['name']))
+                        setattr(lib2, d['name'], ffi2.cast(ffi2.typeof(g2), v1[1]))
+                        back = gvalue(ffi1, getattr(lib1, d['name']))
+                        if w != ('ptr', 0x5550) or back != v1:
+                            self.bad('global-write-not-visible', '%s (pointer): wrote 0x5550 '
+                                     'in-line, out-of-line reads %r; restored out-of-line, '
+                                     'in-line reads %r, was %r' % (d['name'], w, back, v1))
+                        rep.stat('global_pointer_writes')
+                elif d['kind'] == 'xconst':
+                    # a constant without a value: the in-line lib refuses it
+                    rep.stat('valueless_constants')
+                    o1 = outcome(lambda: getattr(lib1, d['name']))
+                    o2 = outcome(lambda: getattr(lib2, d['name']))
+                    if o1[0]:
+                        rep.stat('valueless_constants_readable_inline')
+                        if not o2[0] or gvalue(ffi1, o1[1]) != gvalue(ffi2, o2[1]):
+                            self.bad('valueless-constant-differs', '%s: in-line %r, out-of-line '
+                                     '%r' % (d['name'], o1, o2))
             except Exception as e:
-                bad('lib-compare-raised:' + type(e).__name__, '%s %s (%s): %s' %
-                    (d['kind'], d['name'], d['text'], e))
+                self.bad('lib-compare-raised:' + type(e).__name__, '%s %s (%s): %s' %
+                         (d['kind'], d['name'], d['text'], e))
+        try:
+            d1, d2 = set(dir(lib1)), set(dir(lib2))
+            rep.stat('dir_compared')
+            only1 = sorted(n for n in names if n in d1 and n not in d2)
+            only2 = sorted(n for n in names if n in d2 and n not in d1)
+            miss = sorted(n for n in names if n not in d1 and n not in d2)
+            if only1 or only2 or miss:
+                self.bad('dir-differs', 'functions/globals only in dir(in-line lib): %r, only in '
+                         'dir(out-of-line lib): %r, in neither: %r' % (only1, only2, miss))
+        except Exception as e:
+            self.bad('lib-compare-raised:' + type(e).__name__, 'dir(): %s' % e)
+
+
+RISKY_FORMS = ('self-ref', 'mutual-ref', 'typedef-self-ref', 'opaque')
+
+
+_ANON = None
+
+
+def anon_collision_prone(seed):
+    """ffi.include() mode with an anonymous aggregate / enum in the included
+    and in the including cdef (both are numbered from '$1')"""
+    global _ANON
+    import re
+    if _ANON is None:
+        _ANON = re.compile(r'\b(struct|union|enum)\s*\{')
+    md = modes(seed)
+    if not md['include']:
+        return False
+    c = make_ctx(seed)
+    k = split_point(c, md)
+    if not k:
+        return False
+    return any(_ANON.search(d['text']) for d in c.items[:k]) and \
+        any(_ANON.search(d['text']) for d in c.items[k:])
+
+
+def risky(seed):
+    """cdefs with self-/mutually-referential or opaque aggregates, or with
+    anonymous aggregates on both sides of an ffi.include(), are compared one
+    per process: their out-of-line realization can abort the process
+    (assertions of an assert-enabled backend, Py_FatalError), which must not
+    take the other cdefs of a case with it (and forking an ASan'd interpreter
+    is too slow on this VM)"""
+    return any(d.get('form') in RISKY_FORMS for d in make_ctx(seed).items) or \
+        anon_collision_prone(seed)
+
+
+def run_seed(st, case, seed, rep):
+    """all comparisons of one cdef; returns the opaque out-of-line ctypes whose
+    .fields is still to be read"""
+    p = Pair(st, case, seed, rep)
+    if not p.build():
+        return p, []
+    if p.md['lib_first']:
+        rep.stat('order_lib_before_types')
+        p.compare_lib()
+        p.compare_types()
+    else:
+        p.compare_types()
+        p.compare_lib()
+    if p.md['shuffle']:
+        rep.stat('order_shuffled')
+    p.check_identity()
+    return p, [(seed, p.ffi2, t) for t in DEFERRED.pop(id(p.ffi2)).values()]
+
+
+def child_case(st, case):
+    rep = core.ChildRep()
+    pending = []
+    keep = []
+    for seed in case['seeds']:
+        p, pend = run_seed(st, case, seed, rep)
+        keep.append(p)
+        pending.extend(pend)
+    probe_deferred(pending, rep, st['wd'], fork=bool(case.get('isolated')))
     return rep.result()
 
 
 def judge(ctx, setup, case, obs):
-    core.absorb(ctx, case, obs, lambda seed: {'seeds': [seed], 'no': case['no'], 'so': case['so']})
+    core.absorb(ctx, case, obs, lambda seed: {'seeds': [seed], 'no': case['no'], 'so': case['so'],
+                                              'isolated': bool(case.get('isolated'))})
+
+
+def finalize(ctx, setup):
+    iso = (setup or {}).get('isolated_cases') or []
+    if iso:
+        if _ISO.get('thread') is not None:
+            _ISO['thread'].join()
+        obs = _ISO.get('obs')
+        if obs is None:
+            ctx.inconclusive('isolated cdefs were not run: %s' % _ISO.get('error'))
+            obs = []
+        for c, o in zip(iso, obs):
+            ctx.count('cdefs_run_isolated_on_plain_backend')
+            if isinstance(o, dict) and '_crash' in o:
+                ctx.count('child_crashes')
+                mech, what = abort_mechanism(o['_crash'], o.get('_stderr', ''))
+                if mech == 'abort:fatal:do_realize_lazy_struct_lock_held' and \
+                        anon_collision_prone(c['seeds'][0]):
+                    # the same reproduced defect as 'include-anonymous-name-collision',
+                    # ending in Py_FatalError("lost a struct/union!")
+                    mech = 'include-anonymous-name-collision:fatal-lost-struct'
+                ctx.violation(mech, 'comparing the out-of-line module with the in-line ffi: %s '
+                              ':: cdef seed %d' % (what, c['seeds'][0]), c)
+            elif core.std_obs_check(ctx, c, o, True, False):
+                judge(ctx, setup, c, o)
+    n = ctx.counters.get('emit_refused_pack_gt_1')
+    if n:
+        ctx.note("%d cdefs given with cdef(..., pack=N), N in (2, 4, 8), are accepted in-line but "
+                 "emit_python_code()/compile() for set_source(name, None) raises NotImplementedError "
+                 "(\"only 0 or 1 are supported in API mode\", recompiler._struct_ctx): no out-of-line "
+                 "module can be written for them; nothing was compared" % n)
 
 
 def replay_setup(ctx, case):
-    src = []
-    for s in case['seeds']:
-        src.append(make_ctx(s).c_source())
-        if use_file(s):
-            src.append('#include <stdio.h>\nint m%d_usefile(FILE *f) { return f != 0; }'
-                       % s)
-    case['so'] = cc.build_so(ctx.tmp, '\n'.join(src), 'c11_replay.so')
+    case['so'] = cc.build_so(ctx.tmp, '\n'.join(case_source(s) for s in case['seeds']),
+                             'c11_replay.so')
     return None
